@@ -22,6 +22,9 @@ Executable model (core Lean only) of ONE action on the harness-controlled execut
 | `readyList`, `pollStep`            | `sched::ready()`, `sched::poll_nth_ready(j)` (index modulo the length)                 |
 | `State.pending`                    | `ArcAction::pending` = `Memo(in_flight > 0)`                                          |
 | `M.*`                              | `ArcMultiAction::dispatch` / `dispatch_sync`, `ArcSubmission::cancel`, the spawned `async move { fut.await; … }` (multi_action.rs); `M.State.suppress` as above (`dispatch_sync` is not suppressed); `M.State.disposed`: `MultiAction::dispatch/dispatch_sync` are `try_with_value`, silently nothing after disposal |
+| `State.eager`, `eagerStep`        | the executor: deferred (`spawn` only queues the task: `hx_common::sched`) or EAGER (`spawn` polls the new task once inline, before `dispatch()` returns: hx-c17's `esched`); in eager mode `dispatchStep` = synchronous part, spawn, first poll |
+| `dispatchReadyStep`                | a dispatch whose future is already resolved when it is first polled |
+| `Hook`, `fireVersion`, `fireValue`, `hookDispatch` | a synchronous observer (`ImmediateEffect`) of `version()` / `value()` that dispatches again (bounded by `budget`): it runs INSIDE `version.update(..)` / `value.update(..)` of the completion arm (after `in_flight -= 1`, before the tail `if in_flight == 0 { input = None }`) and inside `clear` — re-entrant dispatch; in eager mode the nested task is polled inline too (its future is pending: it parks) |
 | (driver) `dispatchl`               | `dispatch_local`: same body as `dispatch` except `Executor::spawn_local`; same model event |
 | (driver) kinds `server-*`          | `leptos_server::{ArcServerAction, ServerAction, ArcServerMultiAction, ServerMultiAction}`: `ArcAction::new_with_value(err, |i| S::run_on_client(i.clone()))` + `Deref`; the initial value is `Some(Err(decode_err(e)))` iff a `ServerActionError` context with `path == S::PATH` exists — same model with `init (some e)` / `init none` |
 
@@ -77,6 +80,17 @@ inductive Write where
   | cleared
 deriving DecidableEq, Repr
 
+/-- an `ImmediateEffect` that dispatches `input` again each time its signal is written, `budget` times -/
+structure Hook where
+  budget : Nat := 0
+  input : Val := 0
+deriving DecidableEq, Repr
+
+inductive Trigger where
+  | version
+  | value
+deriving DecidableEq, Repr
+
 structure State where
   inFlight : Nat := 0
   input : Option Val := none
@@ -88,6 +102,11 @@ structure State where
   suppress : Bool := false
   /-- the arena handle is gone -/
   disposed : Bool := false
+  /-- the executor polls a task inline when it is spawned -/
+  eager : Bool := false
+  /-- synchronous observers that re-dispatch: of `version`, of `value` (budget 0 = none) -/
+  hookVersion : Hook := {}
+  hookValue : Hook := {}
   /-- ghost: `new_with_value` argument -/
   initVal : Option Val := none
   /-- ghost: input of the most recent dispatch -/
@@ -106,6 +125,12 @@ inductive Event where
   | clear
   | suppress (b : Bool)
   | dispose
+  /-- switch the executor between deferred and eager spawning -/
+  | eager (b : Bool)
+  /-- dispatch with a future that is already resolved (to `v`) when first polled -/
+  | dispatchReady (i : Val) (v : Val)
+  /-- install (replace) the re-dispatching observer of `version` / `value` -/
+  | hook (tr : Trigger) (budget : Nat) (input : Val)
 deriving DecidableEq, Repr
 
 def modifyAt {α : Type} (f : α → α) : List α → Nat → List α
@@ -135,11 +160,30 @@ def dispatchCore (s : State) (i : Val) : State :=
     lastInput := some i
     tasks := s.tasks ++ [{ curVersion := s.dispatched }] }
 
-/-- synchronous part of `dispatch` + `spawn`; nothing happens while resource loading is suppressed
-(`if !is_suppressing_resource_load() { … }`) or through a disposed arena handle (`try_get_value()`
-is `None`: the call panics before touching the action) -/
-def dispatchStep (s : State) (i : Val) : State :=
-  if s.suppress || s.disposed then s else dispatchCore s i
+/-- a poll that finds neither the abort message nor a result: the task parks -/
+def parkTask (s : State) (id : Nat) : State :=
+  { s with tasks := modifyAt (fun t => { t with woken := false }) s.tasks id }
+
+/-- the dispatch a synchronous observer makes from inside a signal write: `dispatch` proper (nothing
+while suppressed); under the eager executor the new task (its future is pending) is polled inline and parks -/
+def hookDispatch (s : State) (i : Val) : State :=
+  if s.suppress then s
+  else if s.eager then parkTask (dispatchCore s i) s.tasks.length else dispatchCore s i
+
+/-- `version.update(..)` notifies the observer of `version` (not through a disposed handle: the
+harness's observer checks that itself) -/
+def fireVersion (s : State) : State :=
+  if s.disposed then s
+  else match s.hookVersion.budget with
+    | 0 => s
+    | n + 1 => hookDispatch { s with hookVersion := { s.hookVersion with budget := n } } s.hookVersion.input
+
+/-- `value.update(..)` / the write guard of `clear` notifies the observer of `value` -/
+def fireValue (s : State) : State :=
+  if s.disposed then s
+  else match s.hookValue.budget with
+    | 0 => s
+    | n + 1 => hookDispatch { s with hookValue := { s.hookValue with budget := n } } s.hookValue.input
 
 /-- `ActionAbortHandle::abort` on the handle of dispatch `k` (a handle can be used once;
 after the task finished the receiver is gone and `send` fails silently) -/
@@ -181,13 +225,17 @@ def abortArm (s : State) (id : Nat) : State :=
 then the tail of the task -/
 def futArm (s : State) (id : Nat) (t : Task) (v : Val) : State :=
   let isLatest := decide (s.dispatched ≤ t.curVersion)
-  clearInputIfIdle
+  let s1 : State :=
     { s with
       inFlight := s.inFlight - 1
-      version := if isLatest then s.version + 1 else s.version
-      value := if isLatest then some v else s.value
-      log := if isLatest then s.log ++ [.completed id v] else s.log
       tasks := modifyAt (fun t => { t with woken := false, done := true, outcome := .completed v }) s.tasks id }
+  if isLatest then
+    -- `version.update(|n| *n += 1)`: observers of `version` run here
+    let s2 := fireVersion { s1 with version := s1.version + 1 }
+    -- `value.update(|n| **n = Some(result))`: observers of `value` run here
+    let s3 := fireValue { s2 with value := some v, log := s2.log ++ [.completed id v] }
+    clearInputIfIdle s3
+  else clearInputIfIdle s1
 
 /-- one poll of task `id`: `select_biased!` checks the abort arm first, then the future -/
 def pollTask (s : State) (id : Nat) : State :=
@@ -199,7 +247,22 @@ def pollTask (s : State) (id : Nat) : State :=
     else
       match t.fut with
       | .ready v => futArm s id t v
-      | .pending => { s with tasks := modifyAt (fun t => { t with woken := false }) s.tasks id }
+      | .pending => parkTask s id
+
+/-- synchronous part of `dispatch` + `spawn`; nothing happens while resource loading is suppressed
+(`if !is_suppressing_resource_load() { … }`) or through a disposed arena handle (`try_get_value()`
+is `None`: the call panics before touching the action). Under the eager executor `spawn` polls the
+new task once before `dispatch` returns. -/
+def dispatchStep (s : State) (i : Val) : State :=
+  if s.suppress || s.disposed then s
+  else if s.eager then pollTask (dispatchCore s i) s.tasks.length else dispatchCore s i
+
+/-- the same with a future that is already resolved -/
+def dispatchReadyStep (s : State) (i : Val) (v : Val) : State :=
+  if s.suppress || s.disposed then s
+  else
+    let s' := readyStep (dispatchCore s i) s.tasks.length v
+    if s.eager then pollTask s' s.tasks.length else s'
 
 /-- `sched::poll_nth_ready(j)` -/
 def pollStep (s : State) (j : Nat) : State :=
@@ -209,7 +272,7 @@ def pollStep (s : State) (j : Nat) : State :=
   | some id => pollTask s id
 
 def clearCore (s : State) : State :=
-  { s with value := none, log := s.log ++ [.cleared] }
+  fireValue { s with value := none, log := s.log ++ [.cleared] }
 
 /-- `ArcAction::clear`; `Action::clear` = `inner.try_with_value(|inner| inner.clear())` does nothing
 once the handle is disposed -/
@@ -220,6 +283,13 @@ def suppressStep (s : State) (b : Bool) : State := { s with suppress := b }
 
 def disposeStep (s : State) : State := { s with disposed := true }
 
+def eagerStep (s : State) (b : Bool) : State := { s with eager := b }
+
+def hookStep (s : State) (tr : Trigger) (budget : Nat) (input : Val) : State :=
+  match tr with
+  | .version => { s with hookVersion := { budget := budget, input := input } }
+  | .value => { s with hookValue := { budget := budget, input := input } }
+
 def step (s : State) : Event → State
   | .dispatch i => dispatchStep s i
   | .abort k => abortStep s k
@@ -229,6 +299,9 @@ def step (s : State) : Event → State
   | .clear => clearStep s
   | .suppress b => suppressStep s b
   | .dispose => disposeStep s
+  | .eager b => eagerStep s b
+  | .dispatchReady i v => dispatchReadyStep s i v
+  | .hook tr b i => hookStep s tr b i
 
 def run (s : State) (evs : List Event) : State := evs.foldl step s
 
@@ -252,8 +325,7 @@ def pollTaskOld (s : State) (id : Nat) (futFirst : Bool) : State :=
       | .ready v, true => if futFirst then futArm s id t v else abortArm s id
       | .ready v, false => futArm s id t v
       | .pending, true => abortArm s id
-      | .pending, false =>
-        { s with tasks := modifyAt (fun t => { t with woken := false }) s.tasks id }
+      | .pending, false => parkTask s id
 
 def pollStepOld (s : State) (j : Nat) (futFirst : Bool) : State :=
   let r := readyList s
@@ -349,6 +421,7 @@ structure State where
   nsync : Nat := 0
   suppress : Bool := false
   disposed : Bool := false
+  eager : Bool := false
 deriving DecidableEq, Repr
 
 inductive Event where
@@ -359,6 +432,8 @@ inductive Event where
   | poll (j : Nat)
   | suppress (b : Bool)
   | dispose
+  | eager (b : Bool)
+  | dispatchReady (i : Val) (v : Val)
 deriving DecidableEq, Repr
 
 def init : State := {}
@@ -381,11 +456,6 @@ def dispatchSyncCore (s : State) (v : Val) : State :=
     subs := s.subs ++ [{ input := none, value := some v, pending := false, canceled := false }]
     version := s.version + 1
     nsync := s.nsync + 1 }
-
-/-- `ArcMultiAction::dispatch` (nothing while suppressed; `MultiAction::dispatch` is `try_with_value`:
-nothing once disposed) -/
-def dispatchStep (s : State) (i : Val) : State :=
-  if s.suppress || s.disposed then s else dispatchCore s i
 
 /-- `ArcMultiAction::dispatch_sync` (not subject to suppression; nothing once disposed) -/
 def dispatchSyncStep (s : State) (v : Val) : State :=
@@ -418,6 +488,18 @@ def pollTask (s : State) (id : Nat) : State :=
           version := s.version + 1
           tasks := modifyAt (fun t => { t with woken := false, done := true }) s.tasks id }
 
+/-- `ArcMultiAction::dispatch` (nothing while suppressed; `MultiAction::dispatch` is `try_with_value`:
+nothing once disposed); the eager executor polls the new task inline -/
+def dispatchStep (s : State) (i : Val) : State :=
+  if s.suppress || s.disposed then s
+  else if s.eager then pollTask (dispatchCore s i) s.tasks.length else dispatchCore s i
+
+def dispatchReadyStep (s : State) (i : Val) (v : Val) : State :=
+  if s.suppress || s.disposed then s
+  else
+    let s' := readyStep (dispatchCore s i) s.tasks.length v
+    if s.eager then pollTask s' s.tasks.length else s'
+
 def pollStep (s : State) (j : Nat) : State :=
   let r := readyList s
   match r[j % r.length]? with
@@ -426,6 +508,8 @@ def pollStep (s : State) (j : Nat) : State :=
 
 def step (s : State) : Event → State
   | .dispatch i => dispatchStep s i
+  | .dispatchReady i v => dispatchReadyStep s i v
+  | .eager b => { s with eager := b }
   | .dispatchSync v => dispatchSyncStep s v
   | .cancel k => cancelStep s k
   | .ready k v => readyStep s k v
